@@ -8,7 +8,8 @@ for squares x = s*s of Study numbers with positive scalar part -- TLC checks r*r
 nearest small-denominator fractions of the float result; norm(x)^2 = normsq(x) and normalized(x) for
 operands whose norm is rational; exp(x) for simple x on a grid (1/g)Z with |x| <= 1/2: TLC evaluates
 N! g^N sum_{k<=N} x^k/k! in integer arithmetic and compares with the logged value within the remainder
-bound, for positive, zero and negative squares, python floats, Fractions, numpy arrays and sympy."""
+bound, for positive, zero and negative squares, python floats, Fractions, complex numbers (Gaussian-integer instance of
+the reference), numpy arrays and sympy."""
 import os
 import json
 import patterns as P
@@ -87,5 +88,5 @@ def run(ctx):
              '(all key tuples d<=2, sampled + all single-grade blocks d=3..6); certificates: squares of Study numbers (scalar + simple element), rational-norm '
              'operands, simple elements on the grid (1/g)Z with positive / zero / negative square for float, Fraction, numpy, sympy; non-trivial = distinct case',
         assumptions=['float results are compared through the nearest fraction with denominator <= 1e5 (relative distance <= 1e-7), exp through fixed point with the stated remainder bound',
-                     'complex coefficients are not exercised (TLC has no complex numbers; two real lanes were not built)', 'harness/pyref.py only selects operands of the stated domain',
+                     'complex coefficients of exp are checked over the Gaussian integers (an instance of the ring-parameterised reference); sqrt / norm are not exercised with complex values', 'harness/pyref.py only selects operands of the stated domain',
                      'TLC, CommunityModules, JSON encoding, harness/generic.py'])
